@@ -70,4 +70,12 @@ theorem useLoop_without_use (byId : List (String × Node)) (u fuel : Nat) (s : S
   simp only [resolveUseLoop, bind, StateT.bind, getRoot, get, getThe, MonadStateOf.get, StateT.get, pure,
     StateT.pure, Except.pure, Except.bind, h, List.isEmpty_nil, if_true]
 
+/-- C17 (clip-path cycles): a clipPath that is met again while it is being resolved ends the conversion with ValueError at
+    once — whatever fuel is left, without resolving its use elements or asking the engine anything -/
+theorem clip_cycle_detected (active : List Nat) (url : String) (T : Aff Float) (fuel : Nat) (s : SvgObj) (cp : Node)
+    (hr : resolveUrl s.root url "clipPath" = .ok cp) (hm : active.contains cp.uid = true) :
+    resolveClipPathA active url T (fuel + 1) s = .error .valueError := by
+  simp only [resolveClipPathA, bind, StateT.bind, getRoot, get, getThe, MonadStateOf.get, StateT.get, pure, StateT.pure,
+    Except.pure, Except.bind, liftE, hr, Except.map, hm, if_true, DocM.fail]
+
 end PicoSVG.C17
